@@ -22,6 +22,7 @@ func (r *Result) RegStream() string {
 	cur := map[int64]string{}   // goroutine -> name of the API call it is executing
 	uuidNo := map[string]int{}  // subscriber uuid -> small number
 	uuidOwner := map[string]string{}
+	preCancelled := map[string]bool{}
 	no := func(u string) string {
 		if _, ok := uuidNo[u]; !ok {
 			uuidNo[u] = len(uuidNo)
@@ -76,6 +77,10 @@ func (r *Result) RegStream() string {
 			if u := sidUUID[e.F[0]]; u != "" {
 				if _, known := uuidNo[u]; known {
 					add("cx", no(u))
+				} else {
+					// cancelled before the subscriber object exists (Subscribe called with a dead context): the cancel
+					// takes effect for the model as soon as the object is created
+					preCancelled[u] = true
 				}
 			}
 		case "h":
@@ -99,6 +104,9 @@ func (r *Result) RegStream() string {
 			case "gochannel.subscribe.created":
 				uuidOwner[e.F[2]] = own
 				add("sc8", own, no(e.F[2]))
+				if preCancelled[e.F[2]] {
+					add("cx", no(e.F[2]))
+				}
 			case "gochannel.subscribe.replay":
 				add("sy", uuidOwner[e.F[2]])
 			case "gochannel.subscribe.registered":
